@@ -118,6 +118,9 @@ def parse_cbmc(out):
             for p in item['result']:
                 res['props'].append(dict(name=p.get('property'), desc=p.get('description'), status=p.get('status'),
                                          trace=p.get('trace'), loc=p.get('sourceLocation', {})))
+        if 'property' in item and 'status' in item and 'result' not in item:      # --stop-on-fail reports the failing property at top level
+            res['props'].append(dict(name=item.get('property'), desc=item.get('description'), status=item.get('status'),
+                                     trace=item.get('trace'), loc=item.get('sourceLocation', {})))
         if 'goals' in item:
             res['goals'] = [dict(name=g.get('goal'), desc=g.get('description'), status=g.get('status'),
                                  line=g.get('sourceLocation', {}).get('line'), file=g.get('sourceLocation', {}).get('file')) for g in item['goals']]
@@ -305,9 +308,12 @@ class Ctx:
             res['why'] = ('out of memory (%d GB cap)' % h.mem_gb) if oom else ('cbmc error rc=%s: %s %s' % (r['rc'], pc['error'], r['err'][-500:]))
             return res
         props = pc['props']
-        res['obligations'] = len(props)
+        if pc['verdict'] == 'failure' and not [p for p in props if p['status'] == 'FAILURE']:
+            res['status'] = 'broken'; res['why'] = 'cbmc reported failure but no failing property could be parsed'; return res
+        res['obligations'] = len(props) or (pc.get('vccs') or (0, 0))[0]
+        if not props and pc['verdict'] == 'success': res['discharged'] = res['obligations']
         failed = [p for p in props if p['status'] == 'FAILURE']
-        res['discharged'] = len([p for p in props if p['status'] == 'SUCCESS'])
+        if props: res['discharged'] = len([p for p in props if p['status'] == 'SUCCESS'])
         res['failed'] = [dict(name=p['name'], desc=p['desc'], line=p['loc'].get('line'), file=p['loc'].get('file'), function=p['loc'].get('function'),
                               cx=flatten_cx(trace_values(p['trace']))) for p in failed]
         res['status'] = 'fail' if failed else 'pass'
@@ -389,8 +395,11 @@ class Ctx:
         if extra: cov.update(extra)
         ev = dict(property_id=s.pid, tier=s.tier, seed=s.seed, level=level, coverage=cov,
                   assumptions=s.assumptions, wall_s=round(time.time() - s.t0, 1), violations=len(s.violations))
-        os.makedirs(os.path.join(VERIF, 'evidence'), exist_ok=True)
-        json.dump(ev, open(os.path.join(VERIF, 'evidence', s.pid + '.json'), 'w'), indent=1, default=str)
+        # only a full run against /repo itself rewrites the committed evidence file; partial (--only) runs and runs against a
+        # scratch tree (VF_REPO, used for seeded changes) go to evidence/scratch/
+        evdir = os.path.join(VERIF, 'evidence') if (os.path.realpath(REPO) == '/repo' and not getattr(s, 'only', None)) else os.path.join(VERIF, 'evidence', 'scratch')
+        os.makedirs(evdir, exist_ok=True)
+        json.dump(ev, open(os.path.join(evdir, s.pid + '.json'), 'w'), indent=1, default=str)
         for h in broken: s.say('BROKEN-CHECK %s: %s' % (h.name, h.result.get('why')))
         for h in nover: s.say('NO-VERDICT %s: %s' % (h.name, h.result.get('why')))
         s.say('%s tier=%s harnesses=%d decided=%d no_verdict=%d broken=%d violations=%d known=%d wall=%.0fs' % (
